@@ -51,6 +51,8 @@ type SpaceKeeper struct {
 
 func (sk *SpaceKeeper) OnStart() error {
 	sk.quit = make(chan struct{})
+	// registered here, not by the goroutine itself, so that OnStop's Wait cannot run before the Add
+	sk.wg.Add(1)
 	go sk.spacePlotter()
 	go sk.fileWatcher()
 	logging.CPrint(logging.INFO, "spaceKeeper started")
